@@ -49,6 +49,24 @@ date = datetime.date
 dt = datetime.datetime
 UUID = uuid.UUID
 
+import enum as _enum
+
+
+class EN(_enum.Enum):
+    """plain Enum members used as data values: rendered (and collected) as their value"""
+    NEG5 = -5
+    POS7 = 7
+    NEGF = -0.5
+    TXT = "txt"
+    QUO = "it's"
+
+
+class IE(int, _enum.Enum):
+    """numeric mix-in Enum: a member IS a number, and is rendered as its value"""
+    HIGH = 3
+    NEG2 = -2
+
+
 NS = dict(globals())
 
 
